@@ -37,11 +37,22 @@ def ssspJ (h : Net) (src : PyId) : Json :=
   | .ok d => okV (tableJ h d)
 
 def splJ (h : Net) : Json :=
-  let rows := h.nodes.map (fun s => match sssp h s with
-    | .ok d => some (pairJ (idToJson s) (tableJ h d))
-    | _ => none)
-  if rows.all Option.isSome then okV (Json.arr (rows.filterMap id).toArray)
-  else Json.mkObj [("out", Json.str "fuel-exhausted")]
+  match spl h with
+  | some rows => okV (listJ rows (fun r => pairJ (idToJson r.1) (listJ r.2 (fun p => pairJ (idToJson p.1) (distJson p.2)))))
+  | none => Json.mkObj [("out", Json.str "fuel-exhausted")]
+
+/-- decidable form of `DiWF` -/
+def diWfB (h : DiNet) : Bool :=
+  decide h.nodes.Nodup && decide (h.edges.map (·.1)).Nodup &&
+  h.edges.all (fun p => decide p.2.1.Nodup && decide p.2.2.Nodup && p.2.1.all (· ∈ h.nodes) && p.2.2.all (· ∈ h.nodes))
+
+/-- `to_bipartite_graph(DH, index=True)` for a DiHypergraph: links are (source, target) -/
+def dibipJ (h : DiNet) : Json :=
+  okV (Json.mkObj [
+    ("nodes", listJ (dibipNodes h) (fun p => pairJ (natJson p.1) (natJson p.2))),
+    ("edges", listJ (dibipEdges h) (fun p => pairJ (natJson p.1) (natJson p.2))),
+    ("nidx", listJ (dibipNodeIndex h) (fun p => pairJ (natJson p.1) (idToJson p.2))),
+    ("eidx", listJ (dibipEdgeIndex h) (fun p => pairJ (natJson p.1) (idToJson p.2)))])
 
 def weightJ : Option Rat → LW → Json
   | none, _ => Json.null
@@ -83,9 +94,10 @@ def handleFn (h : Net) (f : String) (j : Json) : Json :=
       | none => badOp
       | some none => errJ "XGIError"
       | some (some w) =>
-        if s < 1 then unmodelled else
+        -- any Python int `s`: `|a ∩ b| >= s` is `|a ∩ b| >= s.toNat`; s ≤ 0 links every pair
+        if lineZeroDiv h s w then errJ "ZeroDivisionError" else
         okV (Json.mkObj [
-          ("nodes", listJ h.edges (fun p => pairJ (idToJson p.1) (setToJson p.2))),
+          ("nodes", listJ (lineNodes h) (fun p => pairJ (idToJson p.1) (setToJson p.2))),
           ("edges", listJ (lineLinks h s.toNat w) (fun l => Json.arr #[idToJson l.1, idToJson l.2.1, weightJ l.2.2 w]))])
     | _, _ => badOp
   | "to_bipartite_graph" => okV (Json.mkObj [
@@ -106,6 +118,12 @@ def handleFn (h : Net) (f : String) (j : Json) : Json :=
   | _ => badOp
 
 def handle (st : Unit) (j : Json) : Unit × Json :=
+  match getStr? j "f", getField? j "dinet" with
+  | some "to_bipartite_graph", some dj =>
+    match diNetOfJson? dj with
+    | some h => (st, if diWfB h then dibipJ h else unmodelled)
+    | none => (st, badOp)
+  | _, _ =>
   match getStr? j "f", (getField? j "net").bind netOfJson? with
   | some f, some h => (st, if wfB h then handleFn h f j else unmodelled)
   | _, _ => (st, badOp)
